@@ -96,13 +96,14 @@ type vFrrK8sObs struct {
 	Mode     string                `json:"mode"`
 	Node     string                `json:"node"`
 	Ns       string                `json:"ns"`
-	Sessions []verifkit.FrrSession `json:"sessions"`
+	Same     int                   `json:"same"` // > 0: the marshalled resource is byte-identical to that of order Same (sessions, cr omitted)
+	Sessions []verifkit.FrrSession `json:"sessions,omitempty"`
 	Created  []bool                `json:"created"` // per session: NewSession succeeded (and not closed)
 	Errs     []string              `json:"errs"`
 	Sha      string                `json:"sha"`
 	Len      int                   `json:"len"`
 	Calls    int                   `json:"calls"`
-	CR       vFrrCR                `json:"cr"`
+	CR       *vFrrCR               `json:"cr,omitempty"`
 	JSON     string                `json:"json,omitempty"`
 }
 
@@ -241,7 +242,7 @@ func vFrrK8sPlay(sc verifkit.FrrScenario, ops []verifkit.FrrOp, o *vFrrK8sObs) {
 		o.Created = append(o.Created, ok)
 	}
 	if last == nil {
-		o.CR = vFrrCR{MatchLabels: []vFrrKV{}, Routers: []vFrrCRRouter{}, BfdProfiles: []string{}}
+		o.CR = &vFrrCR{MatchLabels: []vFrrKV{}, Routers: []vFrrCRRouter{}, BfdProfiles: []string{}}
 		return
 	}
 	raw, err := json.Marshal(last)
@@ -250,7 +251,8 @@ func vFrrK8sPlay(sc verifkit.FrrScenario, ops []verifkit.FrrOp, o *vFrrK8sObs) {
 	}
 	sum := sha256.Sum256(raw)
 	o.Sha, o.Len = hex.EncodeToString(sum[:]), len(raw)
-	o.CR = vFrrProject(last)
+	cr := vFrrProject(last)
+	o.CR = &cr
 	o.JSON = string(raw)
 }
 
@@ -260,11 +262,18 @@ func TestVerifFrrcfgK8s(t *testing.T) {
 	defer out.Close()
 	withText := verifkit.FrrWithText()
 	verifkit.FrrForEach(scs, out, func(sc verifkit.FrrScenario, b *verifkit.Block) {
+		first := map[string]int{}
 		for k, ops := range sc.Orders {
 			o := vFrrK8sObs{ID: sc.ID, Ord: k + 1, Mode: "k8s", Node: sc.Node, Ns: sc.Ns, Sessions: sc.Sessions,
 				Created: []bool{}, Errs: []string{}}
 			vFrrK8sPlay(sc, ops, &o)
-			if !withText {
+			key := o.Sha + "|" + o.JSON
+			if f, ok := first[key]; ok {
+				o.Same, o.Sessions, o.CR = f, nil, nil // compression only: the driver copies them from that line
+			} else {
+				first[key] = k + 1
+			}
+			if !withText || o.Same > 0 {
 				o.JSON = ""
 			}
 			b.Add(o)
